@@ -13,6 +13,7 @@ import CdnsVerif.Driver.Blk
 import CdnsVerif.Driver.Bld
 import CdnsVerif.Driver.Rdq
 import CdnsVerif.Driver.Stk
+import CdnsVerif.Driver.Cw
 open CdnsVerif.Driver
 
 def dispatch (line : String) : String :=
@@ -37,6 +38,7 @@ def dispatch (line : String) : String :=
   | "rdq" :: rest => Rdq.handle rest
   | "mrgb" :: rest => Rdq.handleMrgb rest
   | "stk" :: rest => Stk.handle rest
+  | "cw" :: rest => Cw.handle rest
   | _ => "bad-request"
 
 partial def loop (h : IO.FS.Stream) (out : IO.FS.Stream) : IO Unit := do
